@@ -1416,6 +1416,7 @@ generate_pes_packet		(vbi_dvb_mux *		mx,
 	unsigned int p_left;
 	unsigned int last_line;
 	unsigned int last_du_size;
+	unsigned int du_size;
 	unsigned int packet_length;
 	unsigned int size;
 	vbi_bool fixed_length;
@@ -1454,6 +1455,7 @@ generate_pes_packet		(vbi_dvb_mux *		mx,
 	s_begin = s;
 
 	last_line = 0;
+	last_du_size = 0;
 
 	for (;;) {
 		if (s < s_end) {
@@ -1482,7 +1484,7 @@ generate_pes_packet		(vbi_dvb_mux *		mx,
 
 		err = insert_sliced_data_units (&p,
 						p_end - p,
-						&last_du_size,
+						&du_size,
 						&s_begin,
 						s - s_begin,
 						service_mask,
@@ -1491,6 +1493,12 @@ generate_pes_packet		(vbi_dvb_mux *		mx,
 			s = s_begin;
 			goto failed;
 		}
+
+		/* Remember the size of the last data unit in the packet
+		   for encode_stuffing(), also when this call (e.g. the one
+		   after the last raw VBI line) stored none. */
+		if (du_size > 0)
+			last_du_size = du_size;
 
 		if (s_begin < s) {
 			/* Not enough space to encode all sliced data. */
@@ -1526,7 +1534,7 @@ generate_pes_packet		(vbi_dvb_mux *		mx,
 
 		err = insert_raw_data_units (&p,
 					     p_end - p,
-					     &last_du_size,
+					     &du_size,
 					     &samples,
 					     mx->raw_samples_left,
 					     fixed_length,
@@ -1539,6 +1547,9 @@ generate_pes_packet		(vbi_dvb_mux *		mx,
 			mx->raw_samples_left = 0;
 			goto failed;
 		}
+
+		if (du_size > 0)
+			last_du_size = du_size;
 
 		mx->raw_samples_left = samples_end - samples;
 		if (mx->raw_samples_left > 0) {
